@@ -265,8 +265,37 @@ def stage_b(run, tier):
         terms.append(f"pair_eqf ({t}) ({cstr(obs[0])}, {cstr(obs[1])})")
         meta.append({**case, "impl": obs, "model_term": t})
         run.note_case(case, nontrivial=bool(title), kind="B:title_option")
+    # ---- B6 project / package names (Project.__init__) vs Frame.project_name / package_name (the literal `-` -> `_` replacement)
+    from openapi_python_client import Project
+    titles = ["My API", "t", "Pet Store v2", "HTTPThing", "a.b-c_d", "", "123", "\u00e9 api", "X"]
+    datas = {}
+    for t_ in titles:
+        with contextlib.redirect_stdout(io.StringIO()):
+            datas[t_] = GeneratorData.from_dict(impl.base_doc(info={"title": t_, "version": "1"}), config=new_config())
+    for _ in range((120 if tier == "quick" else 300) * n):
+        t_ = rng.choice(titles)
+        po = rng.choice([None, None, ""] + NAME_OVERRIDES + [S.rand_str(rng, list("abXY09-_. "), 10)])
+        ko = rng.choice([None, None, None, ""] + [x.replace("-", "_") for x in NAME_OVERRIDES[:4]] + [S.rand_str(rng, list("abXY09-_. "), 8)])
+        cfg = new_config({"project_name_override": po, "package_name_override": ko})
+        case = {"fn": "Project names", "title": t_, "project_name_override": po, "package_name_override": ko}
+        try:
+            pr = Project(openapi=datas[t_], config=cfg)
+            obs = (pr.project_name, pr.package_name)
+        except Exception as e:  # noqa
+            run.violation("correspondence", {**case, "impl": "raised " + repr(e)})
+            continue
+        tm = f"(project_name {copt_str(po)} {cstr(t_)}, package_name {copt_str(ko)} {copt_str(po)} {cstr(t_)})"
+        terms.append(f"pair_eqf {tm} ({cstr(obs[0])}, {cstr(obs[1])})")
+        meta.append({**case, "impl": obs, "model_term": tm})
+        run.note_case(case, nontrivial=bool(po or ko), kind="B:project_package_names")
+        # oracle, independent of model and implementation: the documented rule (the default project name is checked by the model)
+        exp = documented_names({"project_name_override": po, "package_name_override": ko}, pr.project_name)
+        if obs != exp:
+            run.violation("oracle", {**case, "impl": obs, "documented": exp, "note": "project / package name differs from the documented rule (override verbatim; package = project with '-' replaced by '_')"})
     return terms, meta
 
+
+NAME_OVERRIDES = ["AcmeBilling-SDK", "billingV2-client", "my.proj-name", "My Proj-x", "a__b-c", "UPPER-lower-MiXed9", "v2API-3d", "plain-kebab-name", "x"]
 
 HDR_LOC = "Require Import OPC.gen.GenKinds OPC.Uni OPC.Names OPC.Codec OPC.FrameCodec.\n"
 
@@ -932,6 +961,8 @@ def relation(opt, doc, base, var, ctx):
                 fail("package directory is not named after the documented package name", {"expected": exp_pkg, "found": stray[0]})
             for fn, pat in (("pyproject.toml", 'name = "%s"' % exp_project), ("setup.py", 'name="%s"' % exp_project), ("README.md", "# " + exp_project),
                             ("README.md", "from %s import Client" % exp_pkg)):
+                if fn == "pyproject.toml" and var.meta == "setup":
+                    continue        # the setup flavour's pyproject.toml only configures ruff
                 if fn in V and pat not in V[fn]:
                     fail("metadata file does not carry the documented name", {"file": fn, "expected_text": pat})
             if var.meta == "poetry" and '{include = "%s"}' % exp_pkg not in V.get("pyproject.toml", ""):
@@ -1360,6 +1391,7 @@ def run(run, tier, replay=None):
     meta += fmeta
     if not replay and os.environ.get("C16_ONLY") != "B":
         collision_probe(run)
+        naming_probe(run, tier)
     bad = run_cases(HDR, terms[:off], shard=250) + [off + i for i in fbad]
     print("phase corr %.1fs" % (time.time() - t0))
     nloc, badloc = stage_b_locations(run) if not replay else (0, 0)
@@ -1367,7 +1399,7 @@ def run(run, tier, replay=None):
                 "what": "Class.from_string(overrides, field_prefix) == Frame.class_from_string; prefix sensitivity of PythonIdentifier/ClassName == needs_prefix/class_needs_prefix; "
                         "utils.get_content_type / _source_by_content_type / body_from_data == get_content_type / source_of / body_of; endpoint_collections_by_tag == collect; "
                         "ModelProperty.build class == class_from_string (model_class_string ..); generated file set == prefix ++ core_files + flavour_only; "
-                        "EnumProperty / LiteralEnumProperty.validate_location == FrameCodec.validate_location"}
+                        "EnumProperty / LiteralEnumProperty.validate_location == FrameCodec.validate_location; Project.project_name / package_name == Frame.project_name / package_name"}
     for i in bad[:8]:
         m = meta[i]
         mv = coq_eval(HDR, m["model_term"]) if "model_term" in m and len(m["model_term"]) < 20000 else ""
@@ -1411,6 +1443,89 @@ def collision_probe(run):
         if i in guard_false and run.known_finding("override_module_collision", what):
             continue
         run.violation("oracle", {**case, "doc_json": doc, "note": "a class silently lost its module file although the override table is injective on the document's classes" if i not in guard_false else what})
+
+
+def naming_probe(run, tier):
+    """project_name_override alone / package_name_override alone / both, with override strings containing upper case, camelCase,
+    digits after letters, `.`, ` `, `__`, in every metadata flavour, generated into the DEFAULT location (cwd): the directory names,
+    the metadata files and the importable package name must be the documented ones (computed without the implementation) and the
+    wire behaviour must equal that of the client generated without overrides."""
+    from openapi_python_client import generate
+    from openapi_python_client.config import Config, ConfigFile, MetaType
+    rng = run.rng
+    doc = plain_doc(rng)
+    default_project = "plain-api-client"       # README: kebab-case title + -client
+    base = Tree(doc, {})
+    inst = make_instances(base, 7)
+    kb, rb = run_wire(base, inst)
+    combos = []
+    ovs = NAME_OVERRIDES if tier == "thorough" else NAME_OVERRIDES[:5]
+    for i, o in enumerate(ovs):
+        pk = o.replace("-", "_").replace(".", "_").replace(" ", "_") + "Pkg"
+        for mode, cfg in (("project", {"project_name_override": o}), ("package", {"package_name_override": pk}), ("both", {"project_name_override": o, "package_name_override": pk})):
+            flavours = ["none", "poetry", "pdm", "setup"] if tier == "thorough" else [["none", "poetry", "pdm", "setup"][(i + len(mode)) % 4], "poetry"]
+            for fl in dict.fromkeys(flavours):
+                combos.append((mode, cfg, fl))
+    nwire = 0
+    old = os.getcwd()
+    try:
+        for mode, cfg, fl in combos:
+            root = Path(tempfile.mkdtemp(prefix="opc_c16n_"))
+            try:
+                (root / "doc.json").write_text(json.dumps(doc))
+                cwd = root / "cwd"
+                cwd.mkdir()
+                config = Config.from_sources(ConfigFile(post_hooks=[], **cfg), MetaType(fl), root / "doc.json", "utf-8", False, output_path=None)
+                case = {"probe": "naming", "mode": mode, "config": cfg, "flavour": fl}
+                os.chdir(cwd)
+                try:
+                    with contextlib.redirect_stdout(io.StringIO()):
+                        list(generate(config=config))
+                except Exception as e:  # noqa
+                    run.violation("oracle", {**case, "doc_json": doc, "note": "generate raised", "error": repr(e)})
+                    continue
+                finally:
+                    os.chdir(old)
+                project, pkg = documented_names(cfg, default_project)
+                top = sorted(x.name for x in cwd.iterdir())
+                exp_top = pkg if fl == "none" else project
+                run.note_case(case, nontrivial=True, kind="C:naming-probe")
+                problems = []
+                if top != [exp_top]:
+                    problems.append(("output directory is not the documented name", {"expected": exp_top, "found": top}))
+                pdir = cwd / exp_top if fl == "none" else cwd / exp_top / pkg
+                if not (pdir / "client.py").is_file():
+                    problems.append(("package directory is not <project>/<package> with the documented names", {"expected": str(pdir.relative_to(cwd)),
+                                     "found": sorted(str(x.relative_to(cwd)) for x in cwd.rglob("client.py"))}))
+                if fl != "none" and (cwd / exp_top).is_dir():
+                    txt = {f: (cwd / exp_top / f).read_text() if (cwd / exp_top / f).is_file() else "" for f in ("pyproject.toml", "setup.py", "README.md")}
+                    checks = [("README.md", "# " + project), ("README.md", "from %s import Client" % pkg)]
+                    if fl in ("poetry", "pdm"):
+                        checks.append(("pyproject.toml", 'name = "%s"' % project))
+                    if fl == "poetry":
+                        checks.append(("pyproject.toml", '{include = "%s"}' % pkg))
+                    if fl == "setup":
+                        checks += [("setup.py", 'name="%s"' % project), ("setup.py", 'package_data={"%s"' % pkg)]
+                    for f, pat in checks:
+                        if pat not in txt[f]:
+                            problems.append(("metadata file does not carry the documented name", {"file": f, "expected_text": pat}))
+                # importable under the documented name, same wire behaviour as without overrides
+                if not problems and pkg.isidentifier() and nwire < (4 if tier == "quick" else 12) and mode != "package":
+                    nwire += 1
+                    t = Tree.__new__(Tree)
+                    t.data, t.endpoints, t.config, t.pp, t.pkg, t.out = base.data, base.endpoints, base.config, "x/", pkg, pdir.parent
+                    kv, rv = run_wire(t, inst)
+                    if isinstance(rv, dict) or kv != kb or [norm_obs(x) for x in rv] != [norm_obs(x) for x in rb]:
+                        problems.append(("client generated with naming overrides does not behave like the one without (import name / wire)",
+                                         {"fatal": rv.get("fatal", "")[-300:] if isinstance(rv, dict) else None}))
+                for note, detail in problems:
+                    run.violation("oracle", {**case, "doc_json": doc, "note": note, "first_difference": detail, "documented": [project, pkg]})
+            finally:
+                os.chdir(old)
+                shutil.rmtree(root, ignore_errors=True)
+    finally:
+        os.chdir(old)
+        base.close()
 
 
 def classify(f):
